@@ -13,6 +13,7 @@ def dispatch (op : String) (v : Val) : Option Val :=
   match op with
   | "C01" => Props.C01.check.run v
   | "C01s" => Props.C01.checkS.run v
+  | "C01c" => Props.C01.checkC.run v
   | "C03" => Props.C03.check.run v
   | "C04" => Props.C04.check.run v
   | _ => none
